@@ -26,7 +26,7 @@ def configs():
     return out
 
 
-def cell(acc, rng, cfgov, a, u, hsctlr_a, size, off, basename, base, big, acc_name, mode, iswrite):
+def cell(acc, rng, cfgov, a, u, hsctlr_a, size, off, basename, base, big, acc_name, mode, iswrite, mpu=0):
     cfg = diff.full_cfg(cfgov)
     hyp = hsctlr_a is not None
     cpu = target.new_cpu(cfgov, False, LAYOUT)
@@ -36,6 +36,16 @@ def cell(acc, rng, cfgov, a, u, hsctlr_a, size, off, basename, base, big, acc_na
     if hyp:
         st_['scr'] = 1
         st_['hsctlr'] = hsctlr_a << 1
+    if mpu:
+        # PMSA: region 0 everything RW; region 1 (higher priority) covers the mid device with AP = privileged-only (1) or user-read-only (2)
+        st_['sctlr'] |= 1
+        st_['mpuir'] = 12 << 8
+        st_['drsrs[0]'] = (31 << 1) | 1
+        st_['drbars[0]'] = 0
+        st_['dracrs[0]'] = 3 << 8
+        st_['drsrs[1]'] = (5 << 1) | 1          # 64 bytes at 0x1000
+        st_['drbars[1]'] = 0x1000
+        st_['dracrs[1]'] = mpu << 8
     fill = [bytes(rng.getrandbits(8) for _ in range(n)) for _, n in LAYOUT]
     for i, b in enumerate(fill):
         st_['mem%d' % i] = b
@@ -77,9 +87,9 @@ def cell(acc, rng, cfgov, a, u, hsctlr_a, size, off, basename, base, big, acc_na
     except Exception as e:
         got = ('notimpl', repr(e)) if target.escape_ok(e) else ('host-error', repr(e))
     post = target.snapshot(cpu)
-    key = (cfgov.get('arch_version'), hyp, a, u, hsctlr_a, size, off, basename, big, acc_name, mode, iswrite)
+    key = (cfgov.get('arch_version'), hyp, a, u, hsctlr_a, size, off, basename, big, acc_name, mode, iswrite, mpu)
     unaligned = addr % size != 0
-    nontriv = unaligned or big or size == 8 or basename != 'mid'
+    nontriv = unaligned or big or size == 8 or basename != 'mid' or mpu
     acc.case(nontriv and ref[0] != 'skip', key + (value,), cls='%s/%s' % (acc_name, 'w' if iswrite else 'r'),
              sample=lambda: {'arch': cfgov.get('arch_version'), 'A': a, 'U': u, 'E': big, 'size': size, 'address': '%#x' % addr, 'accessor': acc_name,
                              'write': iswrite, 'reference': list(ref), 'armulator': list(got)})
@@ -120,6 +130,10 @@ def shard_matrix(part, nparts, seed, reps):
             continue
         for _ in range(reps):
             cell(acc, rng, cfgov, a, u, ha, size, off, bn, base, big, acc_name, mode, iswrite)
+        if ha is None and bn == 'mid':
+            # the same cell with the MPU on: privileged-only / user-read-only region (the privilege of every byte of a split access matters)
+            for mpu in (1, 2):
+                cell(acc, rng, cfgov, a, u, ha, size, off, bn, base, big, acc_name, mode, iswrite, mpu)
     acc.exhaustive = True
     return acc
 
@@ -160,7 +174,7 @@ def shard_fetch(seed, count):
 def run(ctx):
     ctx.rule = ('Direct calls of mem_a_get/set, mem_u_get/set, mem_u_unpriv_get/set for the complete matrix size {1,2,4,8} x address offset 0..7 x base '
                 '{mid-device, just below a device end, just below 2^32 (wrap to 0), 0} x CPSR.E x SCTLR.A x SCTLR.U (where the architecture version has '
-                'the bit) x arch {5,6,7} x privileged/User (+ Hyp mode with HSCTLR.A on the virtualization config) x read/write, with random data and '
+                'the bit) x arch {5,6,7} x privileged/User (+ Hyp mode with HSCTLR.A on the virtualization config) x read/write (and, for the mid-device base, MPU off / privileged-only region / user-read-only region), with random data and '
                 'random surrounding memory in every cell (N repetitions). Oracle: vf/ref/machine.py MemA/MemU (alignment fault / legacy align-down / '
                 'byte-by-byte, BigEndianReverse, exact byte footprint via full memory comparison, DFSR/DFAR on faults) + store-then-load round trip. '
                 'Plus: single instructions executed with CPSR.E=0 and 1 must decode identically (little-endian fetch). Non-trivial: unaligned, or E=1, or '
@@ -181,12 +195,13 @@ def _dispatch(fn, args):
 
 def replay(case, bucket=None):
     if 'cell' in case:
-        arch, hyp, a, u, ha, size, off, bn, big, acc_name, mode, iswrite = case['cell']
+        arch, hyp, a, u, ha, size, off, bn, big, acc_name, mode, iswrite = case['cell'][:12]
+        mpu = case['cell'][12] if len(case['cell']) > 12 else 0
         cfgov = case['cfg']
         base = dict(BASES)[bn]
         acc = Acc()
         for s in range(20):
-            cell(acc, random.Random(s), cfgov, a, u, ha, size, off, bn, base, big, acc_name, mode, iswrite)
+            cell(acc, random.Random(s), cfgov, a, u, ha, size, off, bn, base, big, acc_name, mode, iswrite, mpu)
         return sorted(acc.viol)
     r = diff.run(case)
     return [e1prop.sig(r.diffs)] if r.diffs else []
